@@ -243,7 +243,7 @@ def run_tlc(spec, cfg, wd, workers=4, dump=None, timeout=600, extra=()):
     from .. import tlaparse, tlc
     os.makedirs(wd, exist_ok=True)
     spec_path = tlc._prepare(spec, wd)
-    cmd = tlc._java_cmd() + ['-workers', str(workers), '-metadir', os.path.join(wd, 'meta-' + os.path.basename(cfg)), '-noGenerateSpecTE']
+    cmd = tlc._java_cmd(heap='3g') + ['-workers', str(workers), '-metadir', os.path.join(wd, 'meta-' + os.path.basename(cfg)), '-noGenerateSpecTE']
     if dump:
         cmd += ['-dump', 'dot', dump]
     cmd += list(extra) + ['-config', cfg, spec_path]
@@ -252,6 +252,11 @@ def run_tlc(spec, cfg, wd, workers=4, dump=None, timeout=600, extra=()):
     t0 = time.time()
     try:
         p = subprocess.run(cmd, cwd=wd, env=e, stdout=subprocess.PIPE, stderr=subprocess.STDOUT, text=True, errors='replace', timeout=timeout)
+        if p.returncode in (-9, 137):          # killed by the kernel (memory pressure on the shared machine): once more
+            time.sleep(5)
+            if dump and os.path.exists(dump):
+                os.remove(dump)
+            p = subprocess.run(cmd, cwd=wd, env=e, stdout=subprocess.PIPE, stderr=subprocess.STDOUT, text=True, errors='replace', timeout=timeout)
     except subprocess.TimeoutExpired as ex:
         raise tlc.TLCError('TLC timed out after %ss on %s' % (timeout, spec)) from ex
     r = tlc.TLCResult()
